@@ -147,6 +147,8 @@ theorem frozen_step (s : State) (i : Nat) (τ : Timer) (hi : s.timers[i]? = some
   | psrelease => exact hi
   | dropHandle j => exact hi
   | fail => exact hi
+  | startHold => exact hi
+  | started => exact hi
 
 theorem finished_frozen' (s : State) (i : Nat) (τ : Timer) (hi : s.timers[i]? = some τ)
     (hf : τ.res ≠ .pending) (ops : List Op) : (steps s ops).timers[i]? = some τ := by
